@@ -108,7 +108,8 @@ Record ptask := {
   p_status : status;
   p_held : bool; p_queued : bool; p_runahead : bool;
   p_flows : list nat;
-  p_sat : list key;         (* satisfied prerequisite atoms (besides pre-initial ones) *)
+  p_sat : list key;         (* naturally satisfied prerequisite atoms (besides pre-initial ones) *)
+  p_forced : list key;      (* prerequisite atoms force-satisfied by a command (cylc set / trigger) *)
   p_outs : list output;     (* completed outputs *)
   p_sn : nat;               (* submit number *)
   p_rel : bool;             (* released from its queue, awaiting job preparation *)
@@ -119,36 +120,44 @@ Record ptask := {
 
 Definition set_status (p : ptask) (s : status) : ptask :=
   {| p_id := p_id p; p_status := s; p_held := p_held p; p_queued := p_queued p; p_runahead := p_runahead p;
-     p_flows := p_flows p; p_sat := p_sat p; p_outs := p_outs p; p_sn := p_sn p;
+     p_flows := p_flows p; p_sat := p_sat p; p_forced := p_forced p; p_outs := p_outs p; p_sn := p_sn p;
      p_rel := if status_eqb s Preparing then false else p_rel p; p_manual := p_manual p;
      p_idle := p_idle p; p_lag := p_lag p |}.
 Definition set_flags (p : ptask) (h q r : bool) : ptask :=
   {| p_id := p_id p; p_status := p_status p; p_held := h; p_queued := q; p_runahead := r;
-     p_flows := p_flows p; p_sat := p_sat p; p_outs := p_outs p; p_sn := p_sn p;
+     p_flows := p_flows p; p_sat := p_sat p; p_forced := p_forced p; p_outs := p_outs p; p_sn := p_sn p;
      p_rel := p_rel p; p_manual := p_manual p; p_idle := p_idle p; p_lag := p_lag p |}.
 Definition set_sat (p : ptask) (l : list key) : ptask :=
   {| p_id := p_id p; p_status := p_status p; p_held := p_held p; p_queued := p_queued p; p_runahead := p_runahead p;
-     p_flows := p_flows p; p_sat := l; p_outs := p_outs p; p_sn := p_sn p;
+     p_flows := p_flows p; p_sat := l; p_forced := p_forced p; p_outs := p_outs p; p_sn := p_sn p;
      p_rel := p_rel p; p_manual := p_manual p; p_idle := p_idle p; p_lag := p_lag p |}.
 Definition set_outs (p : ptask) (l : list output) : ptask :=
   {| p_id := p_id p; p_status := p_status p; p_held := p_held p; p_queued := p_queued p; p_runahead := p_runahead p;
-     p_flows := p_flows p; p_sat := p_sat p; p_outs := l; p_sn := p_sn p;
+     p_flows := p_flows p; p_sat := p_sat p; p_forced := p_forced p; p_outs := l; p_sn := p_sn p;
      p_rel := p_rel p; p_manual := p_manual p; p_idle := p_idle p; p_lag := p_lag p |}.
 Definition set_rel (p : ptask) (b : bool) : ptask :=
   {| p_id := p_id p; p_status := p_status p; p_held := p_held p; p_queued := p_queued p; p_runahead := p_runahead p;
-     p_flows := p_flows p; p_sat := p_sat p; p_outs := p_outs p; p_sn := p_sn p;
+     p_flows := p_flows p; p_sat := p_sat p; p_forced := p_forced p; p_outs := p_outs p; p_sn := p_sn p;
      p_rel := b; p_manual := p_manual p; p_idle := p_idle p; p_lag := p_lag p |}.
 Definition set_sn (p : ptask) (n : nat) : ptask :=
   {| p_id := p_id p; p_status := p_status p; p_held := p_held p; p_queued := p_queued p; p_runahead := p_runahead p;
-     p_flows := p_flows p; p_sat := p_sat p; p_outs := p_outs p; p_sn := n;
+     p_flows := p_flows p; p_sat := p_sat p; p_forced := p_forced p; p_outs := p_outs p; p_sn := n;
      p_rel := p_rel p; p_manual := p_manual p; p_idle := p_idle p; p_lag := p_lag p |}.
 Definition set_flows (p : ptask) (l : list nat) : ptask :=
   {| p_id := p_id p; p_status := p_status p; p_held := p_held p; p_queued := p_queued p; p_runahead := p_runahead p;
-     p_flows := l; p_sat := p_sat p; p_outs := p_outs p; p_sn := p_sn p;
+     p_flows := l; p_sat := p_sat p; p_forced := p_forced p; p_outs := p_outs p; p_sn := p_sn p;
+     p_rel := p_rel p; p_manual := p_manual p; p_idle := p_idle p; p_lag := p_lag p |}.
+Definition set_manual (p : ptask) (b : bool) : ptask :=
+  {| p_id := p_id p; p_status := p_status p; p_held := p_held p; p_queued := p_queued p; p_runahead := p_runahead p;
+     p_flows := p_flows p; p_sat := p_sat p; p_forced := p_forced p; p_outs := p_outs p; p_sn := p_sn p;
+     p_rel := p_rel p; p_manual := b; p_idle := p_idle p; p_lag := p_lag p |}.
+Definition set_forced (p : ptask) (l : list key) : ptask :=
+  {| p_id := p_id p; p_status := p_status p; p_held := p_held p; p_queued := p_queued p; p_runahead := p_runahead p;
+     p_flows := p_flows p; p_sat := p_sat p; p_forced := l; p_outs := p_outs p; p_sn := p_sn p;
      p_rel := p_rel p; p_manual := p_manual p; p_idle := p_idle p; p_lag := p_lag p |}.
 Definition set_counters (p : ptask) (idle lag : nat) : ptask :=
   {| p_id := p_id p; p_status := p_status p; p_held := p_held p; p_queued := p_queued p; p_runahead := p_runahead p;
-     p_flows := p_flows p; p_sat := p_sat p; p_outs := p_outs p; p_sn := p_sn p;
+     p_flows := p_flows p; p_sat := p_sat p; p_forced := p_forced p; p_outs := p_outs p; p_sn := p_sn p;
      p_rel := p_rel p; p_manual := p_manual p; p_idle := idle; p_lag := lag |}.
 
 Inductive smode := SAuto | SClean | SKill | SNow | SNowNow.
@@ -244,7 +253,7 @@ Definition store (s : mstate) (p : ptask) (in_pool : bool) : mstate :=
   if in_pool then with_pool s (update_task (pool s) p) else with_limbo s (update_task (limbo s) p).
 
 (* ---------------- derived notions ---------------- *)
-Definition sat_of (p : ptask) (k : key) : bool := mem key_eqb k (p_sat p).
+Definition sat_of (p : ptask) (k : key) : bool := mem key_eqb k (p_sat p) || mem key_eqb k (p_forced p).
 Definition prereqs_ok (i : inst) (p : ptask) : bool := forallb (bx_eval (sat_of p)) (i_pre i).
 Definition has_out (l : list output) (o : output) : bool := mem Nat.eqb o l.
 
@@ -269,7 +278,7 @@ Definition restored (p : ptask) : ptask :=
   let st := if prep then Waiting else p_status p in
   {| p_id := p_id p; p_status := st; p_held := p_held p; p_queued := false;
      p_runahead := true;
-     p_flows := p_flows p; p_sat := p_sat p; p_outs := p_outs p;
+     p_flows := p_flows p; p_sat := p_sat p; p_forced := p_forced p; p_outs := p_outs p;
      p_sn := if prep then Nat.pred (p_sn p) else p_sn p;
      p_rel := false; p_manual := p_manual p; p_idle := 0%nat; p_lag := 0%nat |}.
 
@@ -333,6 +342,7 @@ Definition trans_ok (p : ptask) (a b : status) : bool :=
 Record tview := {   (* what the implementation reports about one pooled task at a tick end *)
   v_id : tid; v_status : status; v_held : bool; v_queued : bool; v_runahead : bool;
   v_flows : list nat; v_sat : list key; v_outs : list output; v_sn : nat;
+  v_fsat : list key;        (* force-satisfied prerequisite atoms *)
 }.
 
 Inductive event :=
@@ -356,6 +366,12 @@ Inductive event :=
 | ERestart
 | ERestore (v : tview)
 | ERestartDone
+| ESpawnHist (t : tid) (st : status) (outs : list output) (sn : nat)
+| ETransient (t : tid) (flows : list nat) (outs : list output)
+| EForceSat (t : tid) (keys : list key)
+| EStateForced (t : tid) (st : status) (h q r : bool)
+| EManual (t : tid)
+| ECmdRemove (t : tid)
 | ECrash
 | EAdopt (held : list tid) (hp : option Z) (sp : Z) (stask : option tid)
 | ECmdStop (m : smode)
@@ -365,7 +381,15 @@ Inductive event :=
 | EShutdownReq (m : smode)
 | EParams (sp : Z) (stask : option tid)
 | ETickEnd (snap : list tview) (held : list tid) (hp : option Z)
-| EShutdownAuto.
+| EShutdownAuto
+(* events of a proxy object that was removed from the pool while a NEWER incarnation of the same instance
+   is already in the pool (submission / kill callbacks keep a reference to the old object): the output is
+   really emitted, the hold request really recorded, but the pool proxy is not touched *)
+| EStaleOutput (t : tid) (o : nat)
+| EStaleHold (t : tid).
+
+Definition emitted (tr : list event) (k : key) : Prop :=
+  In (EOutput (fst k) (snd k)) tr \/ In (EStaleOutput (fst k) (snd k)) tr.
 
 Inductive res := Ok (s : mstate) | Err (code : nat).
 
@@ -379,7 +403,7 @@ Definition expected_sat0 (s : mstate) (i : inst) : list key :=
 
 Definition new_task (t : tid) (flows : list nat) (sat0 : list key) (held : bool) : ptask :=
   {| p_id := t; p_status := Waiting; p_held := held; p_queued := false; p_runahead := true;
-     p_flows := flows; p_sat := sat0; p_outs := []; p_sn := 0%nat; p_rel := false; p_manual := false;
+     p_flows := flows; p_sat := sat0; p_forced := []; p_outs := []; p_sn := 0%nat; p_rel := false; p_manual := false;
      p_idle := 0%nat; p_lag := 0%nat |}.
 
 Definition qlimit (c : cfg) (q : nat) : nat := nth q (c_qlimits c) 0%nat.
@@ -398,7 +422,8 @@ Definition view_matches (p : ptask) (v : tview) : bool :=
   tid_eqb (p_id p) (v_id v) && status_eqb (p_status p) (v_status v) &&
   Bool.eqb (p_held p) (v_held v) && Bool.eqb (p_queued p) (v_queued v) &&
   Bool.eqb (p_runahead p) (v_runahead v) && same_nats (p_flows p) (v_flows v) &&
-  same_keys (p_sat p) (v_sat v) && same_nats (p_outs p) (v_outs v) && Nat.eqb (p_sn p) (v_sn v).
+  same_keys (p_sat p) (v_sat v) && same_keys (p_forced p) (v_fsat v) &&
+  same_nats (p_outs p) (v_outs v) && Nat.eqb (p_sn p) (v_sn v).
 
 Definition within_limit (s : mstate) (p : ptask) : bool :=
   match limit s with Some l => Z.leb (fst (p_id p)) l | None => false end.
@@ -463,8 +488,11 @@ Definition step (c : cfg) (s : mstate) (e : event) : res :=
   | EState t st h q r =>
       match lookup s t, find_inst (c_insts c) t with
       | Some (p, inp), Some i =>
-          if negb (status_eqb st (p_status p)) && negb (trans_ok p (p_status p) st) then Err 141   (* lifecycle (C09) *)
-          else if q && negb (p_queued p) && negb (ready i (set_flags p h false r)) then Err 142  (* queued only when ready (C01 C06) *)
+          if negb (status_eqb st (p_status p)) && negb (trans_ok p (p_status p) st)
+             && negb (p_manual p)      (* manually triggered / set / re-spawned-with-history tasks are exempt *)
+          then Err 141   (* lifecycle (C09) *)
+          else if q && negb (p_queued p) && negb (ready i (set_flags p h false r)) && negb (p_manual p)
+               then Err 142  (* queued only when ready (C01 C06); a triggered task may be queued as it is *)
           else if negb r && p_runahead p && negb (within_limit s p) && negb (p_manual p) && negb (is_final (p_status p))
                then Err 143  (* runahead (C04); finished tasks reloaded on restart are exempt *)
           else if status_eqb st Preparing && negb (status_eqb (p_status p) Preparing) && p_held p && negb (p_manual p)
@@ -473,16 +501,21 @@ Definition step (c : cfg) (s : mstate) (e : event) : res :=
           else if negb h && p_held p && mem tid_eqb t (to_hold s) then Err 146     (* released only on request (C06) *)
           else let s1 := if h && negb (p_held p) then add_hold s t else s in
                Ok (store s1 (set_flags (set_status p st) h q r) inp)
-      | None, _ => Ok s                                   (* a proxy that already left the pool: no effect on the pool *)
+      | None, _ =>
+          (* a proxy that already left the pool: no effect on the pool -- except that killing the job of a
+             just-removed task holds that proxy, which leaves its id in the hold set (known finding C30) *)
+          if h then Ok (add_hold s t) else Ok s
       | _, _ => Err 140
       end
   | EReleaseBegin =>
       Ok (with_relq s (map p_id (filter p_queued (pool s))))
   | ERelease l =>
       let newly := filter (fun t => match find_task (pool s) t with
-                                    | Some p => negb (p_rel p) | None => true end) l in
+                                    | Some p => negb (p_rel p) && negb (p_manual p)   (* only manual triggering may exceed a limit *)
+                                    | None => true end) l in
       if negb (forallb (fun t => match find_task (pool s) t, find_inst (c_insts c) t with
-                                 | Some p, Some i => (p_rel p || mem tid_eqb t (relq s)) && negb (p_held p)
+                                 | Some p, Some i => (p_rel p || mem tid_eqb t (relq s) || p_manual p)
+                                                     && (negb (p_held p) || p_manual p)
                                                      && (p_manual p || prereqs_ok i p)
                                  | _, _ => false end) l) then Err 151
       else if negb (release_ok c s newly) then Err 152      (* queue limit (C05) *)
@@ -510,7 +543,12 @@ Definition step (c : cfg) (s : mstate) (e : event) : res :=
       (* with an empty pool nothing can be released and the code keeps its previous value *)
       match pool s with
       | [] => Ok (with_limit s l)
-      | _ => if option_eqb Z.eqb l (spec_limit c s) then Ok (with_limit s l) else Err 181   (* C04 *)
+      | _ => if option_eqb Z.eqb l (spec_limit c s) then Ok (with_limit s l)
+             (* the code does not recompute a limit that already sits at the stop point, even if the
+                earliest pool point has since moved back (manual trigger of an old cycle): finding C04 *)
+             else if option_eqb Z.eqb (limit s) (Some (stop_point s)) && option_eqb Z.eqb l (limit s)
+                  then Ok (with_limit s l)
+             else Err 181   (* C04 *)
       end
   | EMerge t flows =>
       match lookup s t with
@@ -528,6 +566,64 @@ Definition step (c : cfg) (s : mstate) (e : event) : res :=
       Ok (with_crash
             (with_saved (with_limit (with_relq (with_limbo (with_pool (with_stop s (stop_point s) None (stop_task s)) []) []) []) None)
                (map restored (pool s))) false)
+  | ESpawnHist t st outs sn =>
+      (* a just-spawned proxy that carries history from the database (status, outputs, submit number of
+         an earlier, manually influenced incarnation): the outputs must be ones really completed *)
+      match find_task (limbo s) t with
+      | None => Err 275
+      | Some p =>
+          if negb (forallb (fun o => mem key_eqb (t, o) (done s)) outs) then Err 276
+          else Ok (with_limbo s (update_task (limbo s) (set_manual (set_sn (set_outs (set_status p st) outs) sn) true)))
+      end
+  | ETransient t flows outs =>
+      (* a throw-away proxy used by "cylc set" on a task that is not in the pool: it carries the
+         outputs the task completed before *)
+      match find_inst (c_insts c) t with
+      | None => Err 271
+      | Some i =>
+          if negb (Z.leb (c_icp c) (fst t) && Z.leb (fst t) (c_fcp c)) then Err 272
+          else if existsb (fun p => tid_eqb (p_id p) t) (pool s) then Err 273
+          else if negb (forallb (fun o => mem key_eqb (t, o) (done s)) outs) then Err 274
+          else Ok (with_limbo s (set_manual (set_outs (new_task t flows [] false) outs) true :: remove_task (limbo s) t))
+      end
+  | EForceSat t keys =>
+      match lookup s t, find_inst (c_insts c) t with
+      | Some (p, inp), Some i =>
+          (* only prerequisites the task actually has (C29) *)
+          if negb (forallb (fun k => existsb (fun kp => key_eqb (fst kp) k) (inst_keys i)) keys) then Err 281
+          else Ok (store s (set_forced p (keys ++ p_forced p)) inp)
+      | None, _ => Ok s
+      | _, _ => Err 280
+      end
+  | EStateForced t st h q r =>
+      match lookup s t with
+      | Some (p, inp) =>
+          (* a forced change never yields an active job state (C29) *)
+          if status_eqb st Submitted || status_eqb st Running then Err 291
+          else Ok (store s (set_manual (set_flags (set_status p st) h q r) true) inp)
+      | None => Ok s
+      end
+  | EManual t =>
+      match lookup s t with
+      | Some (p, inp) => Ok (store s (set_manual p true) inp)
+      | None => Ok s
+      end
+  | ECmdRemove t =>
+      (* "cylc remove": the instance's history is erased so that it can run again; whatever it had
+         satisfied naturally downstream is unset (force-satisfied prerequisites stay) (C30) *)
+      let keep (k : key) := negb (tid_eqb (fst k) t) in
+      let fix_task (p : ptask) :=
+        if forallb keep (p_sat p) then p else set_manual (set_sat p (filter keep (p_sat p))) true in
+      Ok {| pool := map fix_task (pool s); limbo := map fix_task (limbo s);
+            hist := filter (fun h => negb (tid_eqb (h_id h) t)) (hist s);
+            subs := filter (fun x => negb (tid_eqb (fst x) t)) (subs s);
+            limit := limit s; relq := relq s;
+            abs_done := abs_done s;         (* the record of completed absolute-trigger outputs is NOT erased *)
+            stop_point := stop_point s;
+            done := filter (fun k => keep k || mem key_eqb k (abs_done s)) (done s);
+            to_hold := to_hold s; hold_pt := hold_pt s;
+            saved := map fix_task (saved s); stop_mode := stop_mode s; stop_task := stop_task s;
+            crash_mode := crash_mode s |}
   | ECrash =>
       (* the process died: what the new process reloads is whatever was last committed *)
       Ok (with_crash (with_saved (with_limit (with_relq (with_limbo (with_pool
@@ -543,7 +639,7 @@ Definition step (c : cfg) (s : mstate) (e : event) : res :=
         | None => Err 225
         | Some i =>
             let p := {| p_id := v_id v; p_status := v_status v; p_held := v_held v; p_queued := false;
-                        p_runahead := v_runahead v; p_flows := v_flows v; p_sat := v_sat v; p_outs := v_outs v;
+                        p_runahead := v_runahead v; p_flows := v_flows v; p_sat := v_sat v; p_forced := v_fsat v; p_outs := v_outs v;
                         p_sn := v_sn v; p_rel := false; p_manual := false; p_idle := 0%nat; p_lag := 0%nat |} in
             if negb (Z.leb (c_icp c) (fst (v_id v)) && Z.leb (fst (v_id v)) (c_fcp c)) then Err 226
             else if existsb (fun q => tid_eqb (p_id q) (v_id v)) (pool s) then Err 223
@@ -615,6 +711,8 @@ Definition step (c : cfg) (s : mstate) (e : event) : res :=
       else if existsb (fun p => status_eqb (p_status p) Waiting && Z.leb (fst (p_id p)) (stop_point s)
                                 && negb (Nat.eqb (List.length (p_sat p)) 0)) (pool s) then Err 214
       else Ok (with_stop s (c_fcp c) (Some SAuto) (stop_task s))   (* the early stop point is forgotten once reached (C43) *)
+  | EStaleOutput t o => Ok (with_done s ((t, o) :: done s))
+  | EStaleHold t => Ok (add_hold s t)
   end.
 
 Fixpoint run_from (c : cfg) (s : mstate) (i : nat) (tr : list event) : option (nat * nat) * mstate :=
